@@ -44,6 +44,8 @@ def run(ctx):
                       "Parameter is installed in the class namespace before its __set__ (which dispatches) runs (shared with R13.e)", floor=1)
     ctx.rule("R03.i", "instance or class is decided by identity (shared with R12.v): no boolean-context use of the namespace's instance -- for an instance that is falsy (defines __len__ / "
                       "__bool__) update() and trigger() would assign on the CLASS, so the instance's watchers are never called", floor=40)
+    ctx.rule("R03.l", "Event model (shared with R02.e): Event.__set__ interpreted on mode x outcome x the value assigned (True / False): every assignment in mode set-reset / set reaches the "
+                      "superclass setter, which stores and dispatches -- `obj.e = False` included", floor=1)
     ctx.rule("R03.j", "who may take entries out of the batch queues: every function that rebinds `_state_watchers` / `_events` or removes from them in place is one of the queue managers "
                       "(discard_events, trigger, the flush); unwatch and the registration code do not touch what is already queued", floor=2)
     ctx.rule("R03.k", "every class and every instance has dispatch state of its own: _ClassPrivate.__init__ / _InstancePrivate.__init__ interpreted twice in one interpreter (module-level "
@@ -370,6 +372,8 @@ def run(ctx):
     from checks.shared import instance_tested_by_identity
     instance_tested_by_identity(ctx, "R03.i")
     queue_rewriters(ctx, "R03.j")
+    from checks.shared import event_model
+    event_model(ctx, "R03.l", "C03")
 
     # the model-level rule comes last: if the interpreter cannot follow an edited flush,
     # the structural findings above are still reported
